@@ -53,6 +53,8 @@ fn log_made(ty: u8, tok: u64) {
 fn log_dropped(ty: u8, tok: u64) {
     LOG.lock().unwrap_or_else(|e| e.into_inner()).dropped.push((ty, tok));
 }
+/// clones made through `Clone::clone_from`
+static CLONE_FROMS: std::sync::atomic::AtomicU64 = std::sync::atomic::AtomicU64::new(0);
 /// one-shot fuse: the value (type, token; any token for the ZST) whose `Drop` panics when it runs next
 static FUSE: Mutex<Option<(u8, u64)>> = Mutex::new(None);
 /// set when a fused value was dropped while its thread was already unwinding (the fuse then stays quiet)
@@ -313,8 +315,25 @@ trait GuardLike {
     fn can_clone(&self) -> bool {
         false
     }
+    fn as_any(&self) -> Option<&dyn Any> {
+        None
+    }
+    /// a clone of `self` made the other way: a clone of `scratch` (a shared guard of the same type, of
+    /// any cell) overwritten with `Clone::clone_from(.., self)`; `None` if `scratch` is of another kind
+    fn clone_via_clone_from(&self, _scratch: &dyn GuardLike) -> Option<Box<dyn GuardLike>> {
+        None
+    }
 }
 impl<T: Tok + Resource> GuardLike for Fetch<'static, T> {
+    fn as_any(&self) -> Option<&dyn Any> {
+        Some(self)
+    }
+    fn clone_via_clone_from(&self, scratch: &dyn GuardLike) -> Option<Box<dyn GuardLike>> {
+        let s = scratch.as_any()?.downcast_ref::<Fetch<'static, T>>()?;
+        let mut c = Clone::clone(s);
+        Clone::clone_from(&mut c, self);
+        Some(Box::new(c))
+    }
     fn see(&self) -> (u8, u64) {
         ((**self).ty(), (**self).tok())
     }
@@ -1722,7 +1741,23 @@ impl Case {
                 let l = &self.live[*i];
                 model_line = format!("world clone {}", l.mh.unwrap_or(0));
                 let exp = Exp::Guard(self.refmap.get(&l.key).copied().unwrap_or(u64::MAX));
-                let r = catch(|| l.g.try_clone());
+                // every other time through `Clone::clone_from` into a clone of another shared guard of the
+                // same type (of another cell, if there is one): the borrow of that other cell is given
+                // back, this guard's cell is borrowed once more
+                let scratch = if self.stats.clones % 2 == 1 {
+                    let mut c: Vec<&Live> = self.live.iter().enumerate().filter(|(j, o)| *j != *i && !o.excl && o.key.0 == l.key.0 && o.g.as_any().is_some()).map(|x| x.1).collect();
+                    c.sort_by_key(|o| o.key == l.key);
+                    c.first().copied()
+                } else {
+                    None
+                };
+                let r = catch(|| match scratch.and_then(|s| l.g.clone_via_clone_from(&*s.g)) {
+                    Some(g) => {
+                        CLONE_FROMS.fetch_add(1, std::sync::atomic::Ordering::SeqCst);
+                        Some(g)
+                    }
+                    None => l.g.try_clone(),
+                });
                 self.stats.clones += 1;
                 (exp, match r { Ok(Some(g)) => Real::Guard(g), Ok(None) => Real::None, Err(k) => Real::Panic(k) })
             }
@@ -2702,7 +2737,39 @@ impl Gen {
                 }
                 continue;
             }
-            if self.live.is_empty() {
+            if self.live.is_empty() && self.rng.chance(7) {
+                // two cells of one type (half the time the zero-sized one) both shared-borrowed, clones
+                // between them, one guard dropped, then an exclusive attempt on each cell
+                let ty = if self.rng.chance(50) { 0 } else { self.ty() };
+                let (a, b) = ((ty, 0u64), (ty, 1 + self.rng.below(NDY - 1)));
+                for k in [a, b] {
+                    if !self.present.contains(&k) {
+                        self.present.insert(k);
+                        ops.push(Op::InsertById(ty, k, self.tok(ty)));
+                    }
+                }
+                for k in [a, b] {
+                    self.sim_fetch(k, false);
+                    ops.push(Op::TryFetchById(ty, k));
+                }
+                for _ in 0..2 {
+                    if self.live.len() >= 2 {
+                        let i = self.live.len() - 1 - self.rng.below(2) as usize;
+                        let g = self.live[i];
+                        self.live.push(g);
+                        ops.push(Op::Clone(i));
+                    }
+                }
+                if !self.live.is_empty() {
+                    let i = self.rng.below(self.live.len() as u64) as usize;
+                    self.live.remove(i);
+                    ops.push(Op::Drop(i));
+                }
+                for k in [a, b] {
+                    self.sim_fetch(k, true);
+                    ops.push(Op::TryFetchMutById(ty, k));
+                }
+            } else if self.live.is_empty() {
                 if self.rng.chance(40) {
                     ops.push(self.mut_op());
                 } else {
@@ -3045,6 +3112,7 @@ pub fn run(args: &Args, rep: &mut Report) {
         rep.add("caller_closure_panics_inside_world_calls", st.closure_panics);
         rep.add("world_drops_with_a_panicking_drop", st.world_drops_with_panicking_drop);
         rep.add("world_drops_while_the_thread_unwinds", st.world_drops_while_unwinding);
+        rep.maxi("guard_clones_made_through_clone_from", CLONE_FROMS.load(std::sync::atomic::Ordering::SeqCst));
         rep.add("values_leaked_by_interrupted_world_drops", st.values_leaked_by_world_drop);
         rep.maxi("max_live_guards", st.max_live);
         rep.maxi("max_shared_guards_on_one_cell", st.max_shared_on_one);
